@@ -770,6 +770,14 @@ func sliceDefaultGo(n *Node) any {
 	et := TypeOf(n.Elem)
 	sl := reflect.MakeSlice(reflect.SliceOf(et), len(n.DefSlice), len(n.DefSlice))
 	for i, l := range n.DefSlice {
+		if l.Kind == KSlice { // a slice of slices
+			inner := reflect.MakeSlice(et, len(l.L), len(l.L))
+			for j, x := range l.L {
+				inner.Index(j).Set(reflect.ValueOf(leafGo(x, n.Elem.Elem.Kind)))
+			}
+			sl.Index(i).Set(inner)
+			continue
+		}
 		sl.Index(i).Set(reflect.ValueOf(leafGo(l, n.Elem.Kind)))
 	}
 	return sl.Interface()
